@@ -31,6 +31,66 @@ class OutOfSubset(Exception):
     pass
 
 
+def _int_lit(t: str) -> typing.Optional[int]:
+    t = t.strip()
+    if t.isdigit():
+        return int(t)
+    m = _re.fullmatch(r"\(\s*-\s*(\d+)\s*\)", t)
+    return -int(m.group(1)) if m else None
+
+
+def _lit_term(v: int) -> str:
+    return str(v) if v >= 0 else f"(- {-v})"
+
+
+_LIN = _re.compile(r"\(\+ \(\* (\d+) (\|[^|]+\||[A-Za-z_][\w.!]*)\) (\d+)\)")
+
+
+def _fold_int(op: ast.operator, a: str, b: str) -> typing.Optional[str]:
+    """closed integer arithmetic is evaluated (exact: Python ints), and terms of the shape (+ (* c X) k) -- a cursor split
+    into a symbolic multiple and a literal remainder -- stay in that shape under +/- of literals and are divided exactly by
+    literal divisors of c.  Anything else: None (the generic SMT term is built by the caller)."""
+    x, y = _int_lit(a), _int_lit(b)
+    if x is not None and y is not None:
+        try:
+            if isinstance(op, ast.Add):
+                return _lit_term(x + y)
+            if isinstance(op, ast.Sub):
+                return _lit_term(x - y)
+            if isinstance(op, ast.Mult):
+                return _lit_term(x * y)
+            if isinstance(op, ast.FloorDiv) and y != 0:
+                return _lit_term(x // y)
+            if isinstance(op, ast.Mod) and y != 0:
+                return _lit_term(x % y)
+            if isinstance(op, ast.Pow) and y >= 0:
+                return _lit_term(x ** y)
+            if isinstance(op, ast.LShift) and y >= 0:
+                return _lit_term(x << y)
+            if isinstance(op, ast.RShift) and y >= 0:
+                return _lit_term(x >> y)
+            if isinstance(op, ast.BitAnd):
+                return _lit_term(x & y)
+            if isinstance(op, ast.BitOr):
+                return _lit_term(x | y)
+        except (OverflowError, ValueError):
+            return None
+        return None
+    m = _LIN.fullmatch(a.strip())
+    if m and y is not None:
+        c, X, k = int(m.group(1)), m.group(2), int(m.group(3))
+        if isinstance(op, ast.Add) and k + y >= 0:
+            return f"(+ (* {c} {X}) {k + y})"
+        if isinstance(op, ast.Sub) and k - y >= 0:
+            return f"(+ (* {c} {X}) {k - y})"
+        if isinstance(op, ast.Mod) and y > 0 and c % y == 0:
+            return _lit_term(k % y)
+        if isinstance(op, ast.FloorDiv) and y > 0 and c % y == 0:
+            q = c // y
+            return f"(+ (* {q} {X}) {k // y})" if q != 1 else (f"(+ {X} {k // y})" if k // y else X)
+    return None
+
+
 class BindingError(Exception):
     pass
 
@@ -958,7 +1018,12 @@ class Interp:
                 raise OutOfSubset(f"attribute store on {o}")
         elif isinstance(t, ast.Subscript):
             o = self.eval(t.value)
-            k = self.eval(t.slice)
+            if isinstance(t.slice, ast.Slice):
+                if t.slice.step is not None:
+                    raise OutOfSubset("slice step")
+                k = VTuple([self.eval(t.slice.lower) if t.slice.lower is not None else NONE, self.eval(t.slice.upper) if t.slice.upper is not None else NONE])
+            else:
+                k = self.eval(t.slice)
             h = self.e.store_subscript_hooks.get(o.sort if not isinstance(o, VObj) else o.cls)
             if h is None:
                 raise OutOfSubset(f"subscript store on {o.sort}")
@@ -1187,6 +1252,20 @@ class Interp:
     def s_While(self, s: ast.While) -> None:
         idx, lp = self._loop_contract(s)
         ctx = self.ctx
+        if lp.unroll:
+            # complete unrolling of a loop whose trip count is fixed by literals of the case under verification; the cap is a
+            # guard against a non-terminating unrolling, exceeding it leaves the function undecided
+            for _ in range(130):
+                if not ctx.branch(self.eval(s.test), f"while@{s.lineno}"):
+                    self.exec_block(s.orelse)
+                    return
+                try:
+                    self.exec_block(s.body)
+                except _Break:
+                    return
+                except _Continue:
+                    pass
+            raise OutOfSubset("unrolled while loop exceeds 130 iterations")
         self._prove_inv(lp, idx, "inv-init")
         self._havoc(self._havoc_set(s, lp), s)
         self._assume_inv(lp)
@@ -1217,6 +1296,9 @@ class Interp:
                 items = list(it.items)
             elif isinstance(it, VConst) and isinstance(it.obj, tuple) and it.obj and it.obj[0] == "py" and isinstance(it.obj[1], (list, tuple)):
                 items = [lift_py(x) for x in it.obj[1]]
+            if items is None:
+                uh = self.e.intrinsics.get("unroll:" + (it.cls if isinstance(it, VObj) else it.sort))
+                items = uh(self, it) if uh else None
             if items is None:
                 raise OutOfSubset(f"unrolled for over a non-concrete collection ({it.sort})")
             broke = False
@@ -1399,6 +1481,9 @@ class Interp:
         if isinstance(b, VBool) and isinstance(a, VInt):
             b = VInt(Ite(b.t, "1", "0"))
         if isinstance(a, VInt) and isinstance(b, VInt):
+            folded = _fold_int(op, a.t, b.t)
+            if folded is not None:
+                return VInt(folded)
             if isinstance(op, ast.Add):
                 return VInt(app("+", a.t, b.t))
             if isinstance(op, ast.Sub):
@@ -1453,6 +1538,9 @@ class Interp:
             b = VInt(Ite(b.t, "1", "0"))
         if isinstance(a, VInt) and isinstance(b, VInt):
             sym = {ast.Lt: "<", ast.LtE: "<=", ast.Gt: ">", ast.GtE: ">="}[type(op)]
+            x, y = _int_lit(a.t), _int_lit(b.t)
+            if x is not None and y is not None:
+                return VBool("true" if {"<": x < y, "<=": x <= y, ">": x > y, ">=": x >= y}[sym] else "false")
             return VBool(app(sym, a.t, b.t))
         if isinstance(a, VStr) and isinstance(b, VStr):
             sym = {ast.Lt: "str.<", ast.LtE: "str.<="}.get(type(op))
@@ -1494,6 +1582,8 @@ class Interp:
             a = VInt(Ite(a.t, "1", "0"))
         if isinstance(b, VBool) and isinstance(a, VInt):
             b = VInt(Ite(b.t, "1", "0"))
+        if isinstance(a, VInt) and isinstance(b, VInt) and _int_lit(a.t) is not None and _int_lit(b.t) is not None:
+            return VBool("true" if _int_lit(a.t) == _int_lit(b.t) else "false")
         if type(a) is type(b) and isinstance(a, (VInt, VBool, VStr)):
             return VBool(Eq(a.t, b.t))  # type: ignore
         if isinstance(a, VData) and isinstance(b, VData) and a.kind == b.kind:
@@ -1769,6 +1859,10 @@ class Interp:
     # modular call -----------------------------------------------------------------------------
     def call_contract(self, key: str, args: typing.List[V], kwargs: typing.Dict[str, V]) -> V:
         c = self.e.contracts[key]
+        if not isinstance(c, Contract) and callable(c):
+            # a family of contracts indexed by a literal of the call's state (e.g. cursor position mod 8): the selector picks
+            # the instance; every instance is verified on its own against the same function
+            c = c(self, args, kwargs)
         ctx = self.ctx
         call_node = getattr(self, "_call_node", None)
         n_implicit = 0  # receiver prepended by the method-call path
@@ -1836,6 +1930,8 @@ class Interp:
             result = ctx.make(c.result, f"{key}.result", model=False) if c.result is not None else NONE
             for _, text in c.ensures:
                 ctx.assume(self.spec_bool(text, {"result": result}))
+            if getattr(c, "after_call", None):
+                c.after_call(self)  # bookkeeping of the caller's symbolic state; may not add facts
             if writeback:
                 new_vals = {m: ctx.env[m] for m in writeback}
                 ctx.env = saved_env
@@ -1873,8 +1969,10 @@ class Interp:
             if "." not in loc:
                 ctx.env[loc] = self._fresh_like(ctx.env[loc], loc)
                 continue
-            base, fld = loc.split(".", 1)
+            base, *mid, fld = loc.split(".")
             o = ctx.env.get(base)
+            for m in mid:  # a location inside an object held by a field: self._buf.arr
+                o = ctx.get_field(o, m) if isinstance(o, VObj) else None
             if not isinstance(o, VObj):
                 raise OutOfSubset(f"modifies {loc}: {base} is not an object")
             ctx.set_field(o, fld, self._fresh_like(ctx.get_field(o, fld), loc))
